@@ -72,6 +72,59 @@ Theorem C19_pushed_but_not_listed_refuted : exists s',
 Proof. exact pushed_but_not_listed. Qed.
 Print Assumptions C19_pushed_but_not_listed_refuted.
 
+(* the positive clause under the hypothesis that excludes EXACTLY the squat states.
+   [no_squat st p]: the digest of the manifest the push is going to make is
+   neither the envelope's nor that of "{}" (sha256), and any content the store
+   already holds under it is this very manifest stored as an image manifest
+   (e.g. the identical manifest copied first by someone else: harmless).
+   Then, after ANY later operations, the manifest is in every successful listing
+   of its subject with the annotations reported, and fetches back. It subsumes
+   the listing / fetch conjuncts of C19_push_listed_roundtrip (fresh digest). *)
+Theorem C19_pushed_then_listed : forall ops1 p ops2 st1' bd md a,
+  forallb wf_op (ops1 ++ OpPush p :: ops2) = true ->
+  push_sig (state_after ops1) p = (st1', RPush 0 bd md a) ->
+  no_squat (state_after ops1) p ->
+  let st := state_after (ops1 ++ OpPush p :: ops2) in
+  (forall its lg, list_sigs st (p_subj p) = (LOk its, lg) -> In (I md MT_NOTATION a) its) /\
+  ((p_msz p <= capM)%Z -> (c_sz (p_bc p) <= capB)%Z ->
+     fetch_sig st md = (FOk (p_bdg p) bd, [p_mdg p; p_bdg p])).
+Proof. exact pushed_then_listed. Qed.
+Print Assumptions C19_pushed_then_listed.
+
+Theorem C19_fresh_is_no_squat : forall ops, pushes_fresh ops -> no_squat_history ops.
+Proof. exact fresh_no_squat_history. Qed.
+Print Assumptions C19_fresh_is_no_squat.
+
+(* the hypothesis is necessary: when the store already holds a content under the
+   manifest's digest with a media type other than the image manifest type, the
+   manifest descriptor the push reported is in NO later listing of ANY subject *)
+Theorem C19_squatted_never_listed : forall ops1 p ops2 st1' bd md a e,
+  forallb wf_op (ops1 ++ OpPush p :: ops2) = true ->
+  push_sig (state_after ops1) p = (st1', RPush 0 bd md a) ->
+  lookup_dg (state_after ops1) (p_mdg p) = Some e -> d_mt (e_d e) <> MT_IMAGE ->
+  forall q its lg, list_sigs (state_after (ops1 ++ OpPush p :: ops2)) q = (LOk its, lg) ->
+    forall it, In it its -> i_d it <> md.
+Proof. exact squatted_never_listed. Qed.
+Print Assumptions C19_squatted_never_listed.
+
+(* the oracle on the squat history followed by a listing: [spec_ok] (full
+   strength) is false, [spec_ok_known] (the squatted push owes nothing) is true,
+   the case evaluates to code 2 (oracle violation, model = implementation) with
+   FOOTPRINT 1 = the known finding of KNOWN_FINDINGS.txt *)
+Theorem C19_model_meets_oracle_refuted :
+  wf squat_input = true /\ spec_ok squat_input (model squat_input) = false /\
+  spec_ok_known squat_input (model squat_input) = true /\
+  run [mk_case 7 squat_input (model squat_input)] = [(7, 2, 1)].
+Proof. exact model_violates_oracle_when_squatted. Qed.
+Print Assumptions C19_model_meets_oracle_refuted.
+
+(* footprint 1 is ONLY that: a successful push missing from the listing of its
+   subject although nothing was stored under its manifest digest before is an
+   ordinary violation (footprint 0; here also a mismatch with the model: code 3) *)
+Theorem C19_other_unlisted_is_not_known : run [unlisted_case] = [(8, 3, 0)].
+Proof. exact other_unlisted_is_not_known. Qed.
+Print Assumptions C19_other_unlisted_is_not_known.
+
 (* ---------- "after any sequence of signature pushes": what a push does ---------- *)
 (* the complete outcome of PushSignature on ANY store: success reports the
    descriptors of what was pushed and the caller's annotations plus the creation
@@ -284,6 +337,28 @@ Example ex_clean_hyps :
                     | _ => true end) ops = true /\
   list_sigs (state_after ops) T = (LOk [I (D 1 51 640) 6 [(1,2)]], [51]).
 Proof. cbv zeta. repeat split; vm_compute; reflexivity. Qed.
+
+(* C19_pushed_then_listed, the branch of [no_squat] that is not "fresh": the
+   identical manifest was stored first, as an image manifest; the push reports
+   success and the manifest is listed (once) and fetches back *)
+Example ex_no_squat_present :
+  let a := [(1,3); (5,6)] in
+  let ops1 := [OpRaw (D MT_IMAGE 21 700) (man_content 700 (D 1 10 400) (D 8 20 500) a)] in
+  no_squat (state_after ops1) squat_p /\
+  lookup_dg (state_after ops1) (p_mdg squat_p) <> None /\
+  snd (push_sig (state_after ops1) squat_p) = RPush 0 (D 8 20 500) (D 1 21 700) a /\
+  fst (list_sigs (state_after (ops1 ++ [OpPush squat_p])) (D 1 10 400)) = LOk [I (D 1 21 700) 6 a].
+Proof.
+  cbv zeta. split; [|repeat split; try (vm_compute; reflexivity); vm_compute; discriminate].
+  split; [vm_compute; discriminate|]. split; [vm_compute; discriminate|].
+  intros e a0 L EC. vm_compute in L, EC. inversion L; inversion EC; subst. split; reflexivity.
+Qed.
+
+(* C19_squatted_never_listed: its hypotheses hold in the squat history *)
+Example ex_squatted_hyps :
+  exists e, lookup_dg (state_after squat_ops1) (p_mdg squat_p) = Some e /\ d_mt (e_d e) = MT_OCTET /\
+            d_mt (e_d e) <> MT_IMAGE.
+Proof. eexists. split; [vm_compute; reflexivity|]. split; [reflexivity|vm_compute; discriminate]. Qed.
 
 (* C19_isolation (C19_Property.v): each disjunct of its hypothesis is met by a
    content of the store after ex_ops, while the listing of S succeeds *)
